@@ -181,7 +181,7 @@ def run(R, tier):
                           'numeric text, TRUE/FALSE, blank, empty text, date} x 1-3 arguments incl. literals, cell refs and expressions; '
                           'plus direct helper calls; non-trivial = >= 2 value kinds and >= 2 numeric cells; distinct by recipe')
     C.proof_obligations(R, 'theories/Props/C11.v', 'Props.C11', TARGETS)
-    if any('build failed' in b for b in R.broken):
+    if any('Coq build failed' in b for b in R.broken):
         return
     n = 500 if tier == 'quick' else 5000
     recipes = corpus() + [gen_recipe(R.rng) for _ in range(n)] + direct_recipes(R.rng, n // 2)
